@@ -521,6 +521,11 @@ bool DependencyScan::RecomputeNodeDirty(Node* node, std::vector<Node*>* stack,
       else
         dirty = edge->deps_missing_ = true;
     }
+  } else if (edge->deps_missing_) {
+    // A re-scan (Plan::RefreshDyndepDependents): the first visit found the
+    // discovered deps missing, so the edge still has to run to regenerate
+    // them and its outputs are not ready.
+    dirty = true;
   }
 
   // Finally, visit each output and update their dirty state if necessary.
